@@ -268,6 +268,118 @@ func firstDeferredClosure(n ast.Node) *ast.BlockStmt {
 	return res
 }
 
+// hasArgsLenCheck: the function starts with `if len(args) != n { return … }`.
+func hasArgsLenCheck(fd *ast.FuncDecl) bool {
+	for _, st := range fd.Body.List {
+		ifs, ok := st.(*ast.IfStmt)
+		if !ok {
+			continue
+		}
+		if strings.HasPrefix(src(ifs.Cond), "len(args) != ") && endsInReturn(ifs.Body) {
+			return true
+		}
+	}
+	return false
+}
+
+// insideArgsLenEq: the expression sits in the body of an `if len(args) == n {`.
+func insideArgsLenEq(fd *ast.FuncDecl, e ast.Expr) bool {
+	found := false
+	ast.Inspect(fd.Body, func(n ast.Node) bool {
+		if ifs, ok := n.(*ast.IfStmt); ok && strings.HasPrefix(src(ifs.Cond), "len(args) == ") &&
+			ifs.Body.Pos() <= e.Pos() && e.End() <= ifs.Body.End() {
+			found = true
+		}
+		return true
+	})
+	return found
+}
+
+func endsInReturn(b *ast.BlockStmt) bool {
+	if len(b.List) == 0 {
+		return false
+	}
+	_, ok := b.List[len(b.List)-1].(*ast.ReturnStmt)
+	return ok
+}
+
+// classifySlice recognises exactly two guarded shapes and reports everything else as unknown:
+//   (a) S[lo:hi] with S a string taken from `S, ok := args[k].(string)` and, BEFORE the slice, returning
+//       ifs on `lo < 0`, `hi > int64(len(S))` / `hi > len(S)` (the length of the SAME operand) and `lo > hi`;
+//   (b) xs[:i] / xs[i+1:] inside `for i, _ := range xs` (the index is the range key of the sliced operand).
+func classifySlice(fd *ast.FuncDecl, se *ast.SliceExpr, where string) string {
+	unknown := ".unknown " + leanStr(where+": "+src(se))
+	x, ok := se.X.(*ast.Ident)
+	if !ok || se.Slice3 {
+		return unknown
+	}
+	// shape (b)
+	rangeKey := ""
+	ast.Inspect(fd.Body, func(n ast.Node) bool {
+		if rs, ok := n.(*ast.RangeStmt); ok && src(rs.X) == x.Name && rs.Key != nil && rs.Pos() < se.Pos() && se.End() <= rs.End() {
+			rangeKey = src(rs.Key)
+		}
+		return true
+	})
+	if rangeKey != "" {
+		if se.Low == nil && se.High != nil && src(se.High) == rangeKey {
+			return fmt.Sprintf(".rangeIndex %s %s", leanStr(where), leanStr(src(se)))
+		}
+		if se.High == nil && se.Low != nil && src(se.Low) == rangeKey+" + 1" {
+			return fmt.Sprintf(".rangeIndex %s %s", leanStr(where), leanStr(src(se)))
+		}
+		return unknown
+	}
+	// shape (a)
+	lo, ok1 := se.Low.(*ast.Ident)
+	hi, ok2 := se.High.(*ast.Ident)
+	if !ok1 || !ok2 {
+		return unknown
+	}
+	isString := false
+	var gLo, gHi, gOrd bool
+	ast.Inspect(fd.Body, func(n ast.Node) bool {
+		switch t := n.(type) {
+		case *ast.AssignStmt:
+			if len(t.Lhs) == 2 && len(t.Rhs) == 1 && src(t.Lhs[0]) == x.Name && t.Pos() < se.Pos() {
+				if ta, ok := t.Rhs[0].(*ast.TypeAssertExpr); ok && ta.Type != nil && src(ta.Type) == "string" && strings.HasPrefix(src(ta.X), "args[") {
+					isString = true
+				}
+			}
+		case *ast.IfStmt:
+			if t.End() > se.Pos() || t.Init != nil || t.Else != nil || !endsInReturn(t.Body) {
+				return true
+			}
+			c := src(t.Cond)
+			switch c {
+			case lo.Name + " < 0":
+				gLo = true
+			case hi.Name + " > int64(len(" + x.Name + "))", hi.Name + " > len(" + x.Name + ")":
+				gHi = true
+			case lo.Name + " > " + hi.Name:
+				gOrd = true
+			}
+		}
+		return true
+	})
+	// the sliced operand must be the guarded string itself: no assignment to it between guard and slice
+	reassigned := false
+	ast.Inspect(fd.Body, func(n ast.Node) bool {
+		if as, ok := n.(*ast.AssignStmt); ok && as.Pos() < se.Pos() {
+			for _, l := range as.Lhs {
+				if src(l) == x.Name && !(len(as.Lhs) == 2 && len(as.Rhs) == 1 && strings.HasPrefix(src(as.Rhs[0]), "args[")) {
+					reassigned = true
+				}
+			}
+		}
+		return true
+	})
+	if isString && gLo && gHi && gOrd && !reassigned {
+		return fmt.Sprintf(".guardedString %s %s", leanStr(where), leanStr(src(se)))
+	}
+	return unknown
+}
+
 func optBool(known, v bool) string {
 	if !known {
 		return "none"
@@ -493,6 +605,36 @@ func main() {
 		}
 	}
 	fmt.Fprintf(&out, "/-- functions of udf/server.go and udf/agent/io.go that contain an explicit `panic(`. -/\ndef udfPanicSites : List String := [%s]\n\n", strings.Join(sites, ", "))
+
+	// slice / index expressions in the builtin functions (tick/stateful/functions.go)
+	fnGo := parseFile(repo, "tick/stateful/functions.go")
+	var sliceSites []string
+	for _, d := range fnGo.Decls {
+		fd, ok := d.(*ast.FuncDecl)
+		if !ok || fd.Body == nil || fd.Name.Name != "Call" {
+			continue // the data-dependent path: the builtins' Call methods
+		}
+		recv := ""
+		if fd.Recv != nil && len(fd.Recv.List) == 1 {
+			recv = src(fd.Recv.List[0].Type) + "."
+		}
+		where := recv + fd.Name.Name
+		ast.Inspect(fd.Body, func(x ast.Node) bool {
+			switch t := x.(type) {
+			case *ast.SliceExpr:
+				sliceSites = append(sliceSites, classifySlice(fd, t, where))
+			case *ast.IndexExpr:
+				if id, ok := t.X.(*ast.Ident); ok && id.Name == "args" {
+					if _, lit := t.Index.(*ast.BasicLit); lit && (hasArgsLenCheck(fd) || insideArgsLenEq(fd, t)) {
+						return true // args[k] behind `if len(args) != n { return }` or inside `if len(args) == n {`
+					}
+				}
+				sliceSites = append(sliceSites, ".unknown "+leanStr(where+": "+src(t)))
+			}
+			return true
+		})
+	}
+	fmt.Fprintf(&out, "/-- every slice / index expression in the `Call` methods of tick/stateful/functions.go (other than\n`args[k]` behind a `len(args)` check), with the guards that dominate it. -/\ndef funcSliceSites : List SliceSite := [%s]\n\n", strings.Join(sliceSites, ", "))
 
 	out.WriteString("end Kap.C05.Gen\n")
 	path := filepath.Join(lean, "Kap", "Gen", "C05.lean")
